@@ -213,10 +213,12 @@ theorem C02_fails_on_explicit_padding_union_wrapper :
     summary {} witnessUnionWrapper = some (some (8, 4, [(0, 0), (1, 0), (2, 0)])) :=
   ⟨by decide, by decide, by decide⟩
 
-/-- `--explicit-padding`: `comp_layout.size - self.latest_offset` underflows (panic with overflow
-checks; a 2^64-ish padding array without) -/
-theorem C02_fails_on_tail_padding_underflow :
-    emit { forcePadding := true } witnessTailUnderflow = none ∧ (emit {} witnessTailUnderflow).isSome = true := by decide
+/-- `--explicit-padding`: `comp_layout.size - self.latest_offset` used to underflow here (union in
+wrapper form with a bit-field unit); fixed in /repo by commit 8d11e5e5 (`>=` guard), which the
+model follows: no panic, and the layout is C's -/
+theorem C02_tail_padding_no_underflow :
+    summary { forcePadding := true } witnessTailUnderflow = some (some (8, 8, [(0, 0), (1, 0)])) ∧
+    (emit {} witnessTailUnderflow).isSome = true ∧ Generated.LayoutConsts.tailPaddingGuardIsGe = true := by decide
 
 /-- `#pragma pack(2)` undetected: `b` at 8 in Rust, at 2 in C -/
 theorem C02_fails_on_unpacked_misaligned_member :
